@@ -1,5 +1,6 @@
 import NucsProofs.Propagators.Affine
 import NucsProofs.Propagators.AffineLeq
+import NucsProofs.Propagators.AlldiffCorrectFinal
 import NucsProofs.Propagators.AlldifferentReg
 import NucsProofs.Propagators.CountEq
 import NucsProofs.Propagators.Counting
